@@ -103,11 +103,22 @@ def run_scenario(sc, chooser=None, seed=0, max_steps=3000, rewait_limit=12):
 
     old_factory = lockmod.Signal
     lockmod.Signal = signal_factory
+    old_alloc = lockmod._allocate_lock
+
+    def alloc_lock():
+        # allocating a mutex from inside a scheduled thread (the code as it stands does it in Lock.__init__ only, before any
+        # thread runs) is a pre-emption point: a mutex created lazily on first use is exposed to the race it invites
+        if sched.me() is not None and not sched.abort:
+            sched.yield_point(("alloc",))
+        return old_alloc()
+    lockmod._allocate_lock = alloc_lock
     try:
-        lk = lockmod.Lock("LK")
-        lk.lock = ds.SchedLock()
+        lk = lockmod.Lock("LK", debug=bool(sc.get("debug")))
+        # the mutex is the one Lock.__init__ allocates (a SchedLock: detsched patches the allocator); it is not replaced, so
+        # that a Lock which allocates its mutex differently (late, twice) is exercised as written
         sched.trace(lk, "LK")
-        sched.tag(lk.lock, "M")
+        if getattr(lk, "lock", None) is not None:
+            sched.tag(lk.lock, "M")
         tills = []
         for x in range(sc["ntills"]):
             t = RealSignal("T%d" % x)
@@ -155,7 +166,7 @@ def run_scenario(sc, chooser=None, seed=0, max_steps=3000, rewait_limit=12):
             st["inside"] += 1
             if st["inside"] > 1:
                 st["viol"].append("C05: thread %d returned from wait() while another thread is inside the block" % ti)
-            if lk.lock.owner is not vt or not lk.lock.held:
+            if lk.lock is None or lk.lock.owner is not vt or not lk.lock.held:
                 st["viol"].append("C05: wait() returned on thread %d without holding the lock" % ti)
             sched.note("ret", ti, "wait", bool(r))
             if not r and not (till is not None and bool(ds.raw(tills[till], "_go"))):
@@ -198,7 +209,7 @@ def run_scenario(sc, chooser=None, seed=0, max_steps=3000, rewait_limit=12):
                             if blk["raises"]:
                                 raise Boom()
                     except Boom:
-                        if lk.lock.held and lk.lock.owner is sched.me():
+                        if lk.lock is not None and lk.lock.held and lk.lock.owner is sched.me():
                             st["viol"].append("C05: exception inside the block did not release the lock (thread %d)" % ti)
             return run
 
@@ -220,6 +231,7 @@ def run_scenario(sc, chooser=None, seed=0, max_steps=3000, rewait_limit=12):
         outcome = sched.run()
     finally:
         lockmod.Signal = old_factory
+        lockmod._allocate_lock = old_alloc
 
     stuck = sorted(int(vt.name[1:]) for vt in sched.stuck if vt.name != "env")
     lines = to_lines(sched.events)
